@@ -199,3 +199,74 @@ def check_build_exit_codes(ctx, rid, prog):
                               'no path from `*err = ...` to `return ExitSuccess`')
                     n += 1
     return n
+
+
+def check_refresh_validations(ctx, rid, prog):
+    """Plan::RefreshDyndepDependents: the validation nodes a re-scan reports are planned for every
+    dependent whose re-scan succeeded - whatever the dependent's own dirty state turns out to be."""
+    f = prog.fn('Plan::RefreshDyndepDependents')
+    rds = list(f.calls('DependencyScan::RecomputeDirty'))
+    ok_sites = 0
+    for e in rds:
+        # the local that receives the validation nodes
+        vn = None
+        for a in e.get('args') or []:
+            sa = strip(a)
+            if isinstance(sa, dict) and sa.get('k') == 'un' and sa.get('op') == '&':
+                n = strip(sa['e'])
+                if isinstance(n, dict) and n.get('k') == 'var' and 'validation' in n['n']:
+                    vn = n['n']
+        if vn is None:
+            ctx.violation(rid, f.name, 'refresh:validations-not-collected', f.where(e),
+                          'the re-scan in RefreshDyndepDependents does not collect validation nodes')
+            continue
+        hdrs = [bid for bid, b in f.blocks.items() if b.get('term') and b['term']['kind'] in ('for', 'range', 'while') and
+                any(x.get('k') == 'var' and x['n'] == vn for x in walk(b['term'].get('cond')))]
+        adds = [x for x in f.events('call') if x.get('name') in ('Plan::AddTarget', 'Plan::AddSubTarget')]
+        # success successor of the re-scan
+        starts = [s2 for bid, b in f.blocks.items() for i, s2 in enumerate(b['succ']) if s2 is not None and
+                  any(pol is True and mentions_call(atom, 'DependencyScan::RecomputeDirty') for k, pol, atom in f.edge_facts(bid, i))]
+        good = bool(hdrs) and bool(adds) and bool(starts)
+        for s2 in starts:
+            r = f.find_path(None, lambda x: x['k'] in ('exit', 'ret') or x is e, from_succ=s2,
+                            is_blocker=lambda x: x.get('_b') in hdrs, sensitive=False)
+            good = good and r is None
+        ok_sites += 1
+        ctx.check(rid, good, f.name, 'refresh:validations-skipped', f.where(e),
+                  'after a successful re-scan of a dependent, the loop that plans its validation nodes is always entered')
+    if not ok_sites:
+        ctx.violation(rid, f.name, 'refresh:no-rescan', f.loc, 'no RecomputeDirty call in RefreshDyndepDependents')
+
+
+def check_active_edges(ctx, rid, prog):
+    """RealCommandRunner::GetActiveEdges reports every edge that was started and not yet handed back:
+    a full-range loop over subproc_to_edge_ (the map StartCommand fills and WaitForCommand erases
+    from) in which every iteration appends to the result.  Abort / Cleanup / ClearJobTokens act on
+    exactly this list, so an edge missing from it keeps its slot and its partial outputs."""
+    from rules import full_range, loops_over, every_iteration_passes, lastname
+    gae = prog.fn('RealCommandRunner::GetActiveEdges')
+    if full_range(ctx, rid, gae, 'RealCommandRunner::subproc_to_edge_', 'all started, not yet reaped commands are active',
+                  construct='GetActiveEdges:not-all-of-subproc_to_edge_'):
+        for l in loops_over(gae, 'RealCommandRunner::subproc_to_edge_'):
+            every_iteration_passes(ctx, rid, gae, l, lambda x: x['k'] == 'call' and lastname(x.get('name')) in ('push_back', 'emplace_back'),
+                                   'each entry is appended to the result', 'GetActiveEdges:entry-skipped')
+
+
+def check_outputs_statted(ctx, rid, prog):
+    """DependencyScan::RecomputeNodeDirty: on every visit of an edge (first scan and re-scan after a
+    dyndep load alike) the loop that stats the edge's outputs runs before their dirtiness is
+    computed - outputs added since the last visit have no mtime yet."""
+    from rules import loops_over
+    scan = prog.fn('DependencyScan::RecomputeNodeDirty')
+    heads = []
+    for l in loops_over(scan, 'Edge::outputs_'):
+        body = scan.reachable_from(l['body']) | {l['body']}
+        if any(e.get('name') in ('Node::StatIfNecessary', 'Node::Stat') and e['_b'] in body and l['header'] in scan.reachable_from(e['_b'])
+               for e in scan.events('call')):
+            heads.append(l['header'])
+    uses = [e for e in scan.events('call') if e.get('name') in ('DependencyScan::RecomputeOutputsDirty', 'RecomputeOutputsDirtyCache::all',
+                                                                'RecomputeOutputsDirtyCache::depfile')]
+    dom = scan.dominators()
+    ok = bool(heads) and bool(uses) and all(any(h in dom.get(u['_b'], ()) for h in heads) for u in uses)
+    ctx.check(rid, ok, scan.name, 'scan:outputs-not-statted-on-every-visit', scan.loc,
+              'the per-output stat loop dominates every outputs-dirty computation of the scan (%d loop(s), %d use(s))' % (len(heads), len(uses)))
